@@ -830,6 +830,11 @@ pub fn check_type(
                     continue
                 }
                 /* non-Any case */
+                // the predicate of the check applies to the object itself.
+                result = check_predicate(&o, c.pred());
+                if result.is_some() {
+                    continue
+                }
                 let mut chks = Vec::new();
                 for e in ao.objs() {
                     chks.push((Rc::clone(e), Rc::clone(elem)))
@@ -844,6 +849,11 @@ pub fn check_type(
                     )));
                     continue
                 }
+                // the predicate of the check applies to the object itself.
+                result = check_predicate(&o, c.pred());
+                if result.is_some() {
+                    continue
+                }
                 // The processing as done for Array above will have to be done per-entry,
                 // except we don't optimize for PDFType::Any.
                 let mut chks = Vec::new();
@@ -854,6 +864,11 @@ pub fn check_type(
                 state.push_checks(chks);
             },
             (PDFObjT::Dict(dict), PDFType::Dict(ents, star), _) => {
+                // the predicate of the check applies to the object itself.
+                result = check_predicate(&o, c.pred());
+                if result.is_some() {
+                    continue
+                }
                 let mut chks = Vec::new();
                 // Match the explicitly specified keys.
                 let mut specified: BTreeSet<&[u8]> = BTreeSet::new();
@@ -921,6 +936,11 @@ pub fn check_type(
                 }
             },
             (PDFObjT::Stream(s), PDFType::Stream(ents), _) => {
+                // the predicate of the check applies to the object itself.
+                result = check_predicate(&o, c.pred());
+                if result.is_some() {
+                    continue
+                }
                 // Same code as above for now, copied in case we need to customize later.
                 let mut chks = Vec::new();
                 for ent in ents {
